@@ -16,7 +16,7 @@ def one(meta):
         if a.returncode != 0:
             return m["id"], "STALE-PATCH", a.stderr[-200:]
         shutil.copy(V + "/known_findings.json", v)
-        r = subprocess.run([V + "/bin/nvet", "-prop", "all", "-repo", w, "-verif", v], env=ENV, capture_output=True, text=True)
+        r = subprocess.run([os.environ.get("NVET_BIN", V + "/bin/nvet"), "-prop", "all", "-repo", w, "-verif", v], env=ENV, capture_output=True, text=True)
         rules = sorted(set(re.findall(r"^(?:VIOLATION|UNDECIDED): \S+ (\S+) ", r.stdout, re.M)))
         want = m["checks"]["reported_now_by"]
         if m["checks"].get("known_unreported"):
